@@ -264,8 +264,14 @@ impl Parser {
             x => unreachable!("not sure how to handle `{x:?}`"),
         };
 
-        if let ConstexprEvaluation::Owned(new_match) = matched
-            .try_constexpr_eval()
+        let folded = matched.try_constexpr_eval();
+
+        if folded.is_err() && input.user_data().is_conditionally_evaluated() {
+            // not an error unless this value is evaluated: `Expr::NilEval` decides
+            return Ok(matched);
+        }
+
+        if let ConstexprEvaluation::Owned(new_match) = folded
             .details(
                 value_span,
                 &input.user_data().get_source_file_name(),
